@@ -118,7 +118,7 @@ func c11Guard(cur map[string][][]string, o mOp) bool {
 
 func init() {
 	register("C11", func(c *Ctx) {
-		c.Rule = "fault enumeration: every reachable state of a 3+3-rule universe (p and g, BFS on the real enforcer with auto-save on) x every call of a 30-call alphabet (incl. Self* calls, SavePolicy, LoadPolicy) x {no failure, failure of the 1st adapter call, failure of the 2nd}; LoadPolicy failing after k stored lines for every k; custom failing role manager at the j-th link. Distinct = (state, call, failure point); non-trivial = a failure was injected and reached."
+		c.Rule = "fault enumeration: every reachable state of a 3+3-rule universe (p and g, BFS on the real enforcer with auto-save on) x every call of a 30-call alphabet (incl. Self* calls, SavePolicy, LoadPolicy) x {no failure, failure of the 1st adapter call, failure of the 2nd}; LoadPolicy failing after k stored lines for every k; custom failing role manager at the j-th link. Distinct = (state, call, failure point); non-trivial = a failure was injected and reached. Additions: a watcher (plain / ex / updatable, auto-notify on) attached in every second state; failing loads into an enforcer whose p and/or g list is empty; failing role manager with two role definitions (either one failing, repeated for Go map order) and on a definition that is empty before the load."
 		al := c11Alphabet()
 		type node struct{ path []mOp }
 		seen := map[string]bool{"": true}
